@@ -51,6 +51,15 @@ let handler r =
   | "gammaq" -> let x = num r in let a = num r in put_res (gammaq fops x a)
   | "gammap" -> let x = num r in let a = num r in put_res (gammap fops x a)
   | "qint" -> let x = num r in let a = num r in put_res (gammaq_int fops x a)
+  | "qintw" ->  (* GammaQint with the number of panels whose Integrate call printed "did not converge" / "Result is nan" *)
+      let x = num r in let a = num r in
+      (match gammaq_int_w fops x a with
+       | Ok (q, (nw, nn)) -> put_f q; put_i (int_of_z nw); put_i (int_of_z nn)
+       | Exit -> put_w "EXIT" | OOB -> put_w "OOB" | Fuel -> put_w "FUEL")
+  | "integw" ->  (* integw <fexpr> a b eps depth : Integrate's value and its two diagnostics *)
+      let f = fun1 (parse_fexpr r) in let a = num r in let b = num r in let e = num r in let d = integer r in
+      let (v, (w, n)) = integrate_w fops f a b e (nat_of_int d) in
+      put_f v; put_i (if w then 1 else 0); put_i (if n then 1 else 0)
   | "pser" -> let x = num r in let a = num r in put_res (gammap_ser fops x a)
   | "qcf" -> let x = num r in let a = num r in put_res (gammaq_cf fops x a)
   | "upper" -> let x = num r in let a = num r in put_res (upper_incomplete_gamma fops x a)
